@@ -27,7 +27,38 @@ class Ev:
                 m = re.match(r"^(-?\d+)", str(op.get("txt") or v or ""))
                 return int(m.group(1)) if m else None
         o = self.f.origin_of_operand(op)
-        return const_eval(o)
+        v = const_eval(o)
+        if v is not None: return v
+        # `CONST_ARRAY.len()`: the length is in the type of what the chain of references points at
+        f = self.f
+        for _ in range(8):
+            if op["k"] not in ("copy", "move"): return None
+            ds = f.defs1(op["place"]["local"])
+            if len(ds) != 1: return None
+            d = ds[0][2]
+            if d["k"] == "call":
+                if method_of(callee_name(d)) == "len" and d["args"]:
+                    a = d["args"][0]
+                    for _2 in range(8):
+                        if a["k"] == "const": ty = a.get("ty") or {}
+                        elif a["k"] in ("copy", "move"): ty = f.locals[a["place"]["local"]]["ty"]
+                        else: return None
+                        while isinstance(ty, dict) and ty.get("k") == "ref": ty = ty.get("to") or {}
+                        if isinstance(ty, dict) and ty.get("k") == "array":
+                            try: return int(ty.get("len") or ty.get("n"))
+                            except Exception: return None
+                        if a["k"] == "const": return None
+                        dd = f.defs1(a["place"]["local"])
+                        if len(dd) != 1 or dd[0][2]["k"] != "assign": return None
+                        rv = dd[0][2]["rv"]
+                        if rv["k"] in ("use", "cast"): a = rv["op"]
+                        elif rv["k"] in ("ref", "rawptr"): a = {"k": "copy", "place": {"local": rv["place"]["local"], "proj": []}}
+                        else: return None
+                return None
+            rv = d["rv"]
+            if rv["k"] in ("use", "cast"): op = rv["op"]; continue
+            return None
+        return None
 
     def operand(self, op):
         if op["k"] == "const":
